@@ -1540,11 +1540,13 @@ fn cast_num(
             // float to int
 
             // cranelift can only convert floats to i32 or i64, so we do that first,
-            // then cast the i32 or i64 to the actual one we want
-            let int_to = match cast_from.bit_width() {
-                32 => types::I32,
-                64 => types::I64,
-                _ => unreachable!(),
+            // then cast the i32 or i64 to the actual one we want.
+            // the intermediate int must be at least as wide as the target (up to 64 bits),
+            // otherwise values that fit the target would saturate at the intermediate type.
+            let int_to = if cast_to.bit_width() <= 32 {
+                types::I32
+            } else {
+                types::I64
             };
 
             let first_cast = if cast_to.signed {
@@ -1554,7 +1556,7 @@ fn cast_num(
             };
 
             // now we can convert the `first_cast` int value to the actual int type we want
-            match cast_from.bit_width().cmp(&cast_to.bit_width()) {
+            match (int_to.bits() as u8).cmp(&cast_to.bit_width()) {
                 std::cmp::Ordering::Less if cast_to.signed => {
                     builder.ins().sextend(cast_to.ty, first_cast)
                 }
@@ -1566,20 +1568,15 @@ fn cast_num(
         (false, true) => {
             // int to float
 
-            // first we have to convert the int to an int that can converted to float
-            let int_to = match cast_to.bit_width() {
-                32 => types::I32,
-                64 => types::I64,
-                _ => unreachable!(),
-            };
-
-            let first_cast = match cast_from.bit_width().cmp(&cast_to.bit_width()) {
-                std::cmp::Ordering::Less if cast_from.signed && cast_to.signed => {
-                    builder.ins().sextend(int_to, val)
-                }
-                std::cmp::Ordering::Less => builder.ins().uextend(int_to, val),
-                std::cmp::Ordering::Equal => val,
-                std::cmp::Ordering::Greater => builder.ins().ireduce(int_to, val),
+            // cranelift converts from i32 or i64, so ints narrower than that are first extended
+            // (by their own signedness) and the int is never narrowed below 64 bits,
+            // otherwise the upper bits of the value would be lost before the conversion
+            let first_cast = match cast_from.bit_width() {
+                8 | 16 if cast_from.signed => builder.ins().sextend(types::I32, val),
+                8 | 16 => builder.ins().uextend(types::I32, val),
+                32 | 64 => val,
+                // there is no conversion from i128
+                _ => builder.ins().ireduce(types::I64, val),
             };
 
             // now we can convert that 32 or 64 bit int into a 32 or 64 bit float
@@ -1592,7 +1589,8 @@ fn cast_num(
         (false, false) => {
             // int to int
             match cast_from.bit_width().cmp(&cast_to.bit_width()) {
-                std::cmp::Ordering::Less if cast_from.signed && cast_to.signed => {
+                // widening keeps the value, so it extends by the signedness of the source
+                std::cmp::Ordering::Less if cast_from.signed => {
                     builder.ins().sextend(cast_to.ty, val)
                 }
                 std::cmp::Ordering::Less => builder.ins().uextend(cast_to.ty, val),
